@@ -578,6 +578,32 @@ func main() {
 	if pool.IsWorker() {
 		pool.Serve(map[string]pool.Handler{"graph": graphWorker, "like": likeWorker})
 	}
+	if len(os.Args) > 1 && os.Args[1] == "countsym" {
+		// development aid: size of the symmetry-reduced 4x3 family
+		fs, igs := forests(4), ifaceGraphs(3)
+		pcs, pis := perms(4), perms(3)
+		kept, total := 0, 0
+		for _, f := range fs {
+			for _, ig := range igs {
+				for im := 0; im < 1<<12; im++ {
+					g := &graph{Parent: f, IExt: ig, Def: []bool{true, true, true, true}}
+					for c := 0; c < 4; c++ {
+						row := make([]bool, 3)
+						for i := 0; i < 3; i++ {
+							row[i] = im&(1<<(c*3+i)) != 0
+						}
+						g.Impl = append(g.Impl, row)
+					}
+					total++
+					if g.isCanonical(pcs, pis) {
+						kept++
+					}
+				}
+			}
+		}
+		fmt.Println("4x3 labelled:", total, "kept after symmetry reduction:", kept)
+		return
+	}
 	c := ev.New("C08")
 	defer runner.Cleanup()
 	if c.Replay != "" {
